@@ -1,0 +1,53 @@
+package store
+
+import (
+	"context"
+	"fmt"
+	"io"
+
+	"github.com/glebziz/fs_db/internal/model"
+)
+
+// TxGuard is the store use case behind a look into the transaction registry:
+// a write (Set, Delete) naming a transaction that is not registered - one that
+// was ended by Commit or Rollback, or was never begun - is refused with
+// fs_db.ErrTxNotFound before anything is stored. Reads are refused
+// by the use case itself.
+type TxGuard struct {
+	*UseCase
+}
+
+func NewTxGuard(u *UseCase) *TxGuard {
+	return &TxGuard{
+		UseCase: u,
+	}
+}
+
+func (g *TxGuard) Set(ctx context.Context, key string, content io.Reader) error {
+	if key != "" {
+		err := g.checkTx(ctx)
+		if err != nil {
+			return err
+		}
+	}
+
+	return g.UseCase.Set(ctx, key, content)
+}
+
+func (g *TxGuard) Delete(ctx context.Context, key string) error {
+	err := g.checkTx(ctx)
+	if err != nil {
+		return err
+	}
+
+	return g.UseCase.Delete(ctx, key)
+}
+
+func (g *TxGuard) checkTx(ctx context.Context) error {
+	_, err := g.txRepo.Get(ctx, model.GetTxId(ctx))
+	if err != nil {
+		return fmt.Errorf("tx repository get: %w", err)
+	}
+
+	return nil
+}
